@@ -24,3 +24,7 @@ def run(ctx, rep):
     N.check_last_note_end(ra)
     ri = rep.rule("index-table", "lane indices 0..4, flags 5/6, open 7", floor=7)
     N.check_index_table(ri)
+    rch = rep.rule("chain", "file -> lines (read().splitlines(), utf-8-sig) -> framing -> section route -> dispatcher -> builders: every link "
+                            "hands the lines on unchanged", floor=10)
+    from .chain import check_chain
+    check_chain(ctx, rch, "instrument", strict=True)
